@@ -1,5 +1,5 @@
 (* C16: evaluation of the models on recorded cases (correspondence check). *)
-From CJ Require Import Common.Base C16.Model C16.Concrete.
+From CJ Require Import Common.Base C16.Model C16.ModelMw C16.Concrete.
 
 Definition oerr_eqb (a b : option N) : bool := option_eqb N.eqb a b.
 
@@ -41,6 +41,86 @@ Fixpoint fc_drv (st : fcst) (ops : list (N * N)) (obs : list fcobs) : bool :=
   | [], [] => true
   | op :: r, ob :: r' => let '(s1, o) := fc_drv_step st op in fcobs_eqb (fc_obs_of s1 o) ob && fc_drv s1 r r'
   | _, _ => false
+  end.
+
+(* ---------------- several writers on one connection: is the observed event order one the LTS allows? ---------------- *)
+(* The driver's stream stand-in makes BufferedAmount() and Write() schedule points: a call ARRIVES (and is held),
+   later it is RELEASED (answered / performed).  Taking the mutex, taking the token and seeing closed are not
+   visible by themselves; they are implied by what arrives:
+     EArrBA t        the writer got the mutex                      (MLockOp)
+     ERelBA t v      the test ran on the amount v                  (MCheck; v must be the model's amount)
+     EArrW t n       the writer is past the test / took the token  (MTake if it was waiting)
+     ERelW t         the stream took the bytes                     (MDo)
+     ERet t k e      Write returned                                (MAbort?, MUnlock, MRet)
+     EQuiet ...      every writer is at rest: the model must have no enabled hidden step left, and agrees on
+                     which writers are parked inside Write, on the buffered amount and on the token *)
+Inductive mwev :=
+| EStart (t : nat) (n : N)
+| EArrBA (t : nat)
+| ERelBA (t : nat) (v : N)
+| EArrW (t : nat) (n : N)
+| ERelW (t : nat)
+| ERet (t : nat) (k : N) (e : option N)
+| EDrain (d : N)
+| EForeign (k : N)
+| EClose
+| EQuiet (parked : list bool) (buf : N) (token : bool).
+
+Definition mem_nat (t : nat) (l : list nat) : bool := existsb (Nat.eqb t) l.
+Definition rem_nat (t : nat) (l : list nat) : list nat := filter (fun u => negb (Nat.eqb t u)) l.
+
+Fixpoint quiet_ok (st : mwst) (arr : list nat) (t : nat) (parked : list bool) : bool :=
+  match parked with
+  | [] => true
+  | p :: r =>
+      (match mpcs st t with
+       | MIdle => negb p
+       | MLock _ => p && match mlock st with Some _ => true | None => false end
+       | MChk _ => negb p
+       | MSel _ => p && negb (mtoken st) && negb (mclosed st)
+       | MGo _ => negb p && mem_nat t arr
+       | MUnl _ _ | MDone _ _ => false
+       end) && quiet_ok st arr (S t) r
+  end.
+
+Definition mw_ev (s : mwst * list nat) (e : mwev) : option (mwst * list nat) :=
+  let '(st, arr) := s in
+  let stp := mw_step VLocked st in
+  match e with
+  | EStart t n => match mpcs st t with MIdle => Some (stp (MStart t n), arr) | _ => None end
+  | EArrBA t => match mpcs st t, mlock st with MLock _, None => Some (stp (MLockOp t), arr) | _, _ => None end
+  | ERelBA t v => match mpcs st t with
+                  | MChk _ => if v =? mbuf st then Some (stp (MCheck t), arr) else None
+                  | _ => None
+                  end
+  | EArrW t n => match mpcs st t with
+                 | MGo m => if (m =? n) && negb (mem_nat t arr) then Some (st, t :: arr) else None
+                 | MSel m => if (m =? n) && mtoken st then Some (stp (MTake t), t :: arr) else None
+                 | _ => None
+                 end
+  | ERelW t => match mpcs st t with
+               | MGo _ => if mem_nat t arr then Some (stp (MDo t), rem_nat t arr) else None
+               | _ => None
+               end
+  | ERet t k e =>
+      match mpcs st t with
+      | MUnl k' e' => if (k =? k') && oerr_eqb e e' then Some (mw_run VLocked st [MUnlock t; MRet t], arr) else None
+      | MDone k' e' => if (k =? k') && oerr_eqb e e' then Some (stp (MRet t), arr) else None
+      | MSel _ => if mclosed st && (k =? 0) && oerr_eqb e (Some E_WCLOSED)
+                  then Some (mw_run VLocked st [MAbort t; MUnlock t; MRet t], arr) else None
+      | _ => None
+      end
+  | EDrain d => Some (stp (MDrain d), arr)
+  | EForeign k => Some (stp (MForeign k), arr)
+  | EClose => Some (stp MClose, arr)
+  | EQuiet parked buf token =>
+      if (mbuf st =? buf) && Bool.eqb (mtoken st) token && quiet_ok st arr 0 parked then Some s else None
+  end.
+
+Fixpoint mw_accepts (s : mwst * list nat) (evs : list mwev) : bool :=
+  match evs with
+  | [] => true
+  | e :: r => match mw_ev s e with Some s' => mw_accepts s' r | None => false end
   end.
 
 (* ---------------- hbConn queue under a schedule ---------------- *)
@@ -205,6 +285,7 @@ Inductive case :=
 | CRead (server : bool) (mx : N) (hb : bytes) (raw : list (bspec * option N)) (sizes : list N)
         (obs : list (bspec * option N))
 | CFc (ops : list (N * N)) (obs : list fcobs)
+| CMw (evs : list mwev)
 | CHbq (mx : N) (hb : bytes) (raw : list (bspec * option N)) (ops : list N) (obs : list (N * bspec * option N))
 | CWd (hbs : list nat) (closed_tick : N)
 | CReg (nsec : nat) (asecl : list N) (areal : list bool) (csecl : list N) (ops : list (N * nat))
@@ -222,6 +303,7 @@ Definition chk (c : case) : bool :=
                           else client_reads (N.to_nat mx) sz s in
       rres_match res obs
   | CFc ops obs => fc_drv fc_init ops obs
+  | CMw evs => mw_accepts (mw_init, []) evs
   | CHbq mx hb raw ops obs => hbq_run (N.to_nat mx) hb (h2_init (mk_script raw)) ops obs
   | CWd hbs tick => wd_model hbs =? tick
   | CReg nsec asecl areal csecl ops obs ares_obs apc_obs =>
